@@ -117,7 +117,10 @@ def run_topology(rnd, stats, klass):
     def do_connect(a, b, force_noskip=False):
         back = pos[a] > pos[b]
         dd, _ = rand_dist(rnd)
-        kw = dict(window=rnd.randint(1, 3), blocking=rnd.random() < 0.4, skip=(back and not force_noskip),
+        skip_flag = (back and not force_noskip)
+        if rnd.random() < 0.3:
+            skip_flag = onp.bool_(skip_flag)  # flags taken from a numpy topology mask / from infos that went through tree_map
+        kw = dict(window=rnd.randint(1, 3), blocking=rnd.random() < 0.4, skip=skip_flag,
                   jitter=rnd.choice([const.Jitter.LATEST, const.Jitter.BUFFER]))
         if dd is not None:
             kw["delay_dist"] = dd
@@ -126,7 +129,7 @@ def run_topology(rnd, stats, klass):
         if rnd.random() < 0.2:
             kw["name"] = f"in{a}"
         nodes[f"n{b}"].connect(nodes[f"n{a}"], **kw)
-        history.append(("connect", a, b, {k: (str(v) if k in ("delay_dist", "jitter") else v) for k, v in kw.items()}))
+        history.append(("connect", a, b, {k: (str(v) if k in ("delay_dist", "jitter") else (bool(v) if k == "skip" else v)) for k, v in kw.items()}))
 
     pairs = [(a, b) for a in range(N) for b in range(N) if a != b]
     rnd.shuffle(pairs)
@@ -246,6 +249,35 @@ def run_topology(rnd, stats, klass):
     return V, nontrivial, dict(nodes=N, history=history[-6:], steps=steps)
 
 
+def check_trainable_expected_delay(rnd, stats):
+    """a trainable connection simulates its DISTRIBUTION's delay; the expected delay only moves phases"""
+    from rex.base import TrainableDist
+    from rex.node import BaseNode
+
+    V = []
+    a, b = BaseNode(name="a", rate=20), BaseNode(name="b", rate=10)
+    mn = round(rnd.uniform(0, 0.01), 4)
+    mx = round(mn + rnd.uniform(0.02, 0.1), 4)
+    y = round(rnd.uniform(mn, mx), 4)
+    x = round(rnd.uniform(0, 0.1), 4)
+    route = rnd.choice(["connect", "set_dist", "set_delay"])
+    if route == "connect":
+        b.connect(a, delay=x, delay_dist=TrainableDist.create(y, mn, mx))
+    elif route == "set_dist":
+        b.connect(a, delay_dist=TrainableDist.create(mn, mn, mx))
+        b.inputs["a"].set_delay(delay_dist=TrainableDist.create(y, mn, mx))
+    else:
+        b.connect(a, delay_dist=TrainableDist.create(y, mn, mx))
+        b.inputs["a"].set_delay(delay=x)
+    ins = b.init_inputs()
+    got = float(ins["a"].delay_dist.mean())
+    stats["trainable_expected_delay_checked"] += 1
+    if abs(got - y) > 1e-5:
+        V.append(dict(clause="trainable_connection_simulates_expected_delay_instead_of_distribution", route=route, distribution_delay=y, expected_delay=float(b.inputs["a"].delay),
+                      simulated=got))
+    return V
+
+
 def run_async_episode(rnd, stats, seed):
     """set_delay must take effect in subsequent simulation."""
     from distrax import Deterministic
@@ -324,6 +356,12 @@ def run_case(case):
             items += [dict(status="held", key=f"{key}/{i}", nontrivial=nontriv) for i in range(n_steps)]
         if t == 0:
             samples.append(desc)
+    for t in range(20):
+        st = Counter()
+        V = check_trainable_expected_delay(rnd, st)
+        counters.update(st)
+        key = f"{case['spec_seed']}/trainable{t}"
+        items.append(dict(status="violated", key=key, nontrivial=True, witness=dict(mechanism=V[0]["clause"], violations=V[:2])) if V else dict(status="held", key=key, nontrivial=True))
     for e in range(case.get("episodes", 1)):
         st = Counter()
         V = run_async_episode(rnd, st, case["spec_seed"] * 7 + e)
